@@ -1282,6 +1282,8 @@ class Frame(object):
         if g.ifs or not isinstance(g.target, ast.Name):
             return None
         itv = self.ev(g.iter, st)
+        if isinstance(itv, EachV):
+            itv = ListV([itv], 'each')      # mapping over a summarised sequence maps its element: same summary, new element
         if not isinstance(itv, ListV) or len(itv.elems) > 12:
             return None
 
@@ -1291,6 +1293,8 @@ class Frame(object):
             s2 = st.fork()
             s2.env[g.target.id] = e
             return self.ev(node.elt, s2)
+        if itv.kind == 'each':
+            return apply(itv.elems[0])
         return ListV([apply(e) for e in itv.elems], 'list')
 
     def _comp(self, node, st, br):
@@ -1563,6 +1567,8 @@ class Frame(object):
                     for e in args[0].elems:
                         its.extend(as_items(e))
                     return Bytes(its)
+                if isinstance(args[0], EachV) and not merge_consts(recv.items):
+                    return Bytes(as_items(args[0]))     # b''.join(<comprehension>) == the loop that appends each element
                 if not merge_consts(recv.items):
                     return Bytes([('SYM', 'join(%s)' % render(args[0]))])
                 return Bytes([('SYM', '%s.join(%s)' % (render(recv), render(args[0])))])
